@@ -18,7 +18,8 @@ ALPHABET = [
 
 
 # Sub-alphabets for deeper exhaustive enumeration of the two stateful parts of the tokenizer.
-FSTR_ALPHABET = ['a', ' ', '{', '}', ':', '!', "'", '"', '\n', '\\', '(', ')', '\u2028', 'f', '#', '=']
+FSTR_ALPHABET = ['a', ' ', '{', '}', ':', '!', "'", '"', '\n', '\\', '(', ')', '\u2028', 'f', '#', '=', '"""', "'''",
+                 '\\\n', '\t']
 INDENT_ALPHABET = ['a', ' ', '\t', '\n', '\r', '\\', '#', '(', ')', ':', '\f', 'del']
 
 
@@ -164,3 +165,54 @@ def corpus_chunks(version, nfiles, rng, max_chars=1500, per_file=None):
             ch = rng.sample(ch, per_file)
         out += [c for c in ch if len(c) <= 4 * max_chars]
     return out
+
+
+# ---- indentation shapes (spec IndentShapes) -------------------------------------------------------
+SKELETONS = [
+    ['if x:', 'a = 1', 'elif y:', 'b = 2', 'else:', 'c = 3'],
+    ['try:', 'a', 'except E:', 'pass', 'finally:', 'b'],
+    ['try:', 'a', 'except E as e:', 'b', 'else:', 'c'],
+    ['for i in y:', 'a', 'else:', 'b'],
+    ['while x:', 'a', 'break', 'else:', 'b'],
+    ['with a as b:', 'c', 'd'],
+    ['def f(p):', '"doc"', 'return p', 'x = 1'],
+    ['class C:', 'x = 1', 'def m(self):', 'pass', 'y = 2'],
+    ['@dec', '@dec2(1)', 'def f():', 'pass'],
+    ['@dec', 'class C:', 'pass', 'z'],
+    ['async def f():', 'await q', 'async with a:', 'pass'],
+    ['x = [', '1,', ']', 'y'],
+    ['if x:', 'pass', 'y', 'else:', 'z'],
+    ['def f():', 'if x:', 'return', 'return 1'],
+    ['try:', 'pass', 'except:', 'pass', 'except E:', 'raise'],
+]
+
+
+def indent_shapes(run_dir, cols=(0, 1, 2, 4, 6, 8), bases=(0, 4), max_lines=5):
+    """-> list of texts: every indentation assignment of every skeleton (first max_lines lines)"""
+    from . import tlc as _tlc
+    import re as _re
+    sk = [s[:max_lines] for s in SKELETONS]
+    _tlc.prepare(run_dir, ['IndentShapes'])
+    lens = ' @@ '.join('(%d :> %d)' % (i + 1, len(s)) for i, s in enumerate(sk))
+    with open(os.path.join(run_dir, 'IndentShapes.tla')) as f:
+        src = f.read()
+    src = src.replace('=====', 'MCLen == %s\n=====' % lens, 1)
+    with open(os.path.join(run_dir, 'IndentShapes.tla'), 'w') as f:
+        f.write(src)
+    cfg = ('SPECIFICATION Spec\nCONSTANTS\n NSkel = %d\n SkelLen <- MCLen\n Cols = {%s}\n Bases = {%s}\n' %
+           (len(sk), ', '.join(map(str, cols)), ', '.join(map(str, bases))))
+    res = _tlc.run(run_dir, 'IndentShapes', cfg, workers=4, dump='shapes', timeout=600)
+    out = []
+    txt = open(os.path.join(run_dir, 'shapes.dump')).read()
+    for block in _re.split(r'\nState \d+:\n', '\n' + txt)[1:]:
+        mk = _re.search(r'/\\ k = (\d+)', block)
+        mi = _re.search(r'/\\ ind = <<(.*)>>', block)
+        if not mk or not mi:
+            continue
+        k = int(mk.group(1))
+        ind = [int(x) for x in _re.findall(r'\d+', mi.group(1))]
+        if len(ind) != len(sk[k - 1]):
+            continue
+        out.append(''.join(' ' * c + line + '\n' for c, line in zip(ind, sk[k - 1])))
+    os.remove(os.path.join(run_dir, 'shapes.dump'))
+    return out, res
